@@ -414,3 +414,15 @@ Fixpoint gen_schemas_of (encs decs : list (string * list gfield))
       else None
   | _, _ => None
   end.
+
+(** * Where the buffer of a decoded byte field comes from (round 3, seeded change C13-g)
+
+    [decoder.bytes(buf)] decodes in place when the caller's [buf] is large
+    enough.  On the server entry the request objects come from
+    [newRequestMessage] with no buffer ([BufFresh]: every decoded payload is
+    its own allocation, owned by that request).  A buffer that belongs to the
+    endpoint and is handed to every write request ([BufShared size]) is
+    shared by all requests decoded on that endpoint.  The translator reads
+    the policy off [startCall] / [newRequestMessage] (Gen/WireSchema.v
+    [gen_write_buf]). *)
+Inductive buf_policy := BufFresh | BufShared (size : N) | BufUnknown (text : string).
